@@ -11,20 +11,396 @@ Definition emitted (s s' : st) (pkts : list bytes) : Prop :=
   s_park s' = s_park s /\ s_wops s' = (s_wops s + length pkts)%nat /\
   s_trace s' = rev (map EWrite pkts) ++ s_trace s.
 
+
+(* ---- helpers: monad, state projections ---- *)
+
+Lemma bind_ret_tt (m : M unit) s : (m ;;; ret tt) s = m s.
+Proof. unfold bind, ret. destruct (m s) as [[[]|e|p] s']; reflexivity. Qed.
+
+Lemma s_tw_set_tw x s : s_tw (set_tw x s) = x.
+Proof. reflexivity. Qed.
+Lemma s_lim_set_tw x s : s_lim (set_tw x s) = s_lim s.
+Proof. reflexivity. Qed.
+Lemma set_tw_set_tw x y s : set_tw x (set_tw y s) = set_tw x s.
+Proof. reflexivity. Qed.
+Lemma set_tw_same s : set_tw (s_tw s) s = s.
+Proof. destruct s; reflexivity. Qed.
+
+Lemma emitted_refl s : emitted s s [].
+Proof.
+  unfold emitted. cbn [length map rev app]. rewrite Nat.add_0_r. repeat split; reflexivity.
+Qed.
+Lemma emitted_trans s s1 s2 a b : emitted s s1 a -> emitted s1 s2 b -> emitted s s2 (a ++ b).
+Proof.
+  unfold emitted. intros (A1 & A2 & A3 & A4 & A5 & A6 & A7) (B1 & B2 & B3 & B4 & B5 & B6 & B7).
+  repeat split; try congruence.
+  - rewrite B6, A6, app_length. lia.
+  - rewrite B7, A7, map_app, rev_app_distr, app_assoc. reflexivity.
+Qed.
+Lemma emitted_set_tw x s s' l : emitted (set_tw x s) s' l -> emitted s s' l.
+Proof. intro H; exact H. Qed.
+
+(* ---- end_packet ---- *)
+
+Lemma end_packet_ok_inv s u s' :
+  end_packet s = (ROk u, s') -> s_lim s' = s_lim s /\ s_tw s' = [].
+Proof.
+  unfold end_packet.
+  destruct ((Nlen (s_tw s) =? 0) && negb (s_cont s)) eqn:E.
+  - intro H. inversion H; subst s'. split; [reflexivity|].
+    apply Bool.andb_true_iff in E. destruct E as [E _].
+    apply N.eqb_eq in E. apply Nlen_0; exact E.
+  - unfold t_write.
+    destruct (fault_at _ _); intro H; inversion H; subst s'. split; reflexivity.
+Qed.
+
+Lemma end_packet_emit s :
+  s_fault s = WNone -> (Nlen (s_tw s) =? 0) && negb (s_cont s) = false ->
+  exists s', end_packet s = (ROk tt, s') /\ s_tw s' = [] /\
+    s_cont s' = (Nlen (s_tw s) =? s_lim s) /\ s_seq s' = (s_seq s + 1) mod 256 /\
+    emitted s s' [le_bytes 3 (Nlen (s_tw s)) ++ b_of_N (s_seq s) :: s_tw s].
+Proof.
+  intros Hf Hc. unfold end_packet. rewrite Hc. unfold t_write.
+  cbn [set_seq_cont s_fault s_wops]. rewrite Hf. cbn [fault_at].
+  eexists. split; [reflexivity|].
+  unfold emitted.
+  cbn [set_tw upd_trace set_wops set_seq_cont s_reads s_fault s_wops s_trace s_lim s_buf s_tw
+       s_seq s_cont s_park length map rev app].
+  repeat split. lia.
+Qed.
+
+(* ---- write1 / write_bytes ---- *)
+
+Lemma write1_fit b s :
+  Nlen (s_tw s) + 1 < s_lim s -> write1 b s = (ROk tt, set_tw (s_tw s ++ [b]) s).
+Proof.
+  intro H. unfold write1. rewrite s_tw_set_tw, Nlen_app.
+  change (Nlen [b]) with 1.
+  destruct (N.eqb_spec (Nlen (s_tw s) + 1) (s_lim s)); [lia | reflexivity].
+Qed.
+Lemma write1_fill b s :
+  Nlen (s_tw s) + 1 = s_lim s -> write1 b s = end_packet (set_tw (s_tw s ++ [b]) s).
+Proof.
+  intro H. unfold write1. rewrite s_tw_set_tw, Nlen_app.
+  change (Nlen [b]) with 1.
+  destruct (N.eqb_spec (Nlen (s_tw s) + 1) (s_lim s)); [reflexivity | lia].
+Qed.
+
+Lemma write_bytes_fit c : forall s,
+  Nlen (s_tw s) + Nlen c < s_lim s -> write_bytes c s = (ROk tt, set_tw (s_tw s ++ c) s).
+Proof.
+  induction c as [|b c IH]; intros s H.
+  - cbn [write_bytes]. unfold ret. rewrite app_nil_r, set_tw_same. reflexivity.
+  - rewrite Nlen_cons in H. cbn [write_bytes]. unfold bind.
+    rewrite write1_fit by lia.
+    rewrite IH.
+    + rewrite s_tw_set_tw, set_tw_set_tw, <- app_assoc. reflexivity.
+    + rewrite s_tw_set_tw, s_lim_set_tw, Nlen_app. change (Nlen [b]) with 1. lia.
+Qed.
+
+Lemma write_bytes_fill c : forall s,
+  c <> [] -> Nlen (s_tw s) + Nlen c = s_lim s ->
+  write_bytes c s = end_packet (set_tw (s_tw s ++ c) s).
+Proof.
+  induction c as [|b c IH]; intros s Hne H; [congruence|].
+  destruct c as [|b2 c].
+  - cbn [write_bytes]. rewrite bind_ret_tt. apply write1_fill.
+    change (Nlen [b]) with 1 in H. exact H.
+  - change (write_bytes (b :: b2 :: c)) with (write1 b ;;; write_bytes (b2 :: c)).
+    rewrite Nlen_cons in H. unfold bind.
+    rewrite write1_fit by (rewrite Nlen_cons in H; lia).
+    rewrite IH.
+    + rewrite s_tw_set_tw, set_tw_set_tw, <- app_assoc. reflexivity.
+    + discriminate.
+    + rewrite s_tw_set_tw, s_lim_set_tw, Nlen_app. change (Nlen [b]) with 1. lia.
+Qed.
+
+Lemma write_bytes_app a b s : write_bytes (a ++ b) s = (write_bytes a ;;; write_bytes b) s.
+Proof.
+  revert s. induction a as [|x a IH]; intro s.
+  - reflexivity.
+  - cbn [app write_bytes]. unfold bind at 1 2 3.
+    destruct (write1 x s) as [[u|e|p] s1]; [|reflexivity|reflexivity].
+    rewrite IH. reflexivity.
+Qed.
+
+Lemma write1_inv b s u s' :
+  0 < s_lim s -> Nlen (s_tw s) < s_lim s -> write1 b s = (ROk u, s') ->
+  s_lim s' = s_lim s /\ Nlen (s_tw s') < s_lim s'.
+Proof.
+  intros H0 H1. unfold write1. rewrite s_tw_set_tw, Nlen_app. change (Nlen [b]) with 1.
+  destruct (N.eqb_spec (Nlen (s_tw s) + 1) (s_lim s)) as [E|E]; intro H.
+  - apply end_packet_ok_inv in H. destruct H as [Hl Ht].
+    rewrite s_lim_set_tw in Hl. rewrite Hl, Ht. split; [reflexivity | exact H0].
+  - inversion H; subst s'. rewrite s_tw_set_tw, s_lim_set_tw, Nlen_app.
+    change (Nlen [b]) with 1. split; [reflexivity | lia].
+Qed.
+
+Lemma write_bytes_inv c : forall s u s',
+  0 < s_lim s -> Nlen (s_tw s) < s_lim s -> write_bytes c s = (ROk u, s') ->
+  s_lim s' = s_lim s /\ Nlen (s_tw s') < s_lim s'.
+Proof.
+  induction c as [|b c IH]; intros s u s' H0 H1 H.
+  - cbn [write_bytes] in H. unfold ret in H. inversion H; subst s'. split; [reflexivity | exact H1].
+  - cbn [write_bytes] in H. unfold bind in H.
+    destruct (write1 b s) as [[u1|e|p] s1] eqn:E; try discriminate.
+    apply write1_inv in E; [|assumption|assumption]. destruct E as [El Et].
+    apply IH in H; [|rewrite El; assumption|assumption].
+    destruct H as [Hl Ht]. split; [congruence | exact Ht].
+Qed.
+
+(* ---- write_all ---- *)
+
+Lemma write_all_f_S f bs s : bs <> [] -> write_all_f (S f) bs s =
+  let left := N.to_nat (N.min (Nlen bs) (s_lim s - Nlen (s_tw s))) in
+  let s1 := set_tw (s_tw s ++ firstn left bs) s in
+  let cont := if Nat.eqb left 0 then fail EWriteZero else write_all_f f (skipn left bs) in
+  if Nlen (s_tw s1) =? s_lim s then (end_packet ;;; cont) s1 else cont s1.
+Proof. destruct bs; [congruence|]. reflexivity. Qed.
+
+Lemma write_all_f_write_bytes fuel : forall bs s,
+  (length bs < fuel)%nat -> 0 < s_lim s -> Nlen (s_tw s) < s_lim s ->
+  write_all_f fuel bs s = write_bytes bs s.
+Proof.
+  induction fuel as [|f IH]; intros bs s Hf H0 H1; [lia|].
+  destruct bs as [|b0 r0] eqn:Ebs; [reflexivity|].
+  rewrite <- Ebs in *. assert (Hne : bs <> []) by (rewrite Ebs; discriminate).
+  assert (Hlen : (1 <= length bs)%nat) by (rewrite Ebs; cbn [length]; lia).
+  clear Ebs b0 r0.
+  rewrite write_all_f_S by exact Hne. cbv zeta.
+  set (left := N.to_nat (N.min (Nlen bs) (s_lim s - Nlen (s_tw s)))).
+  assert (Hl1 : (1 <= left)%nat) by (unfold left, Nlen in *; lia).
+  assert (Hl2 : (left <= length bs)%nat) by (unfold left, Nlen in *; lia).
+  assert (Hl3 : Nlen (s_tw s) + N.of_nat left <= s_lim s) by (unfold left, Nlen in *; lia).
+  destruct (Nat.eqb_spec left 0) as [E0|_]; [lia|].
+  rewrite s_tw_set_tw.
+  assert (Hfl : Nlen (firstn left bs) = N.of_nat left).
+  { unfold Nlen. rewrite firstn_length_le by exact Hl2. reflexivity. }
+  assert (Hsk : (length (skipn left bs) < f)%nat) by (rewrite skipn_length; lia).
+  transitivity (write_bytes (firstn left bs ++ skipn left bs) s);
+    [|rewrite firstn_skipn; reflexivity].
+  rewrite write_bytes_app. unfold bind.
+  rewrite Nlen_app, Hfl.
+  destruct (N.eqb_spec (Nlen (s_tw s) + N.of_nat left) (s_lim s)) as [E|E].
+  - rewrite write_bytes_fill.
+    + destruct (end_packet (set_tw (s_tw s ++ firstn left bs) s)) as [[u|e|p] s2] eqn:Eep;
+        [|reflexivity|reflexivity].
+      apply end_packet_ok_inv in Eep. destruct Eep as [El Et]. rewrite s_lim_set_tw in El.
+      apply IH; [exact Hsk | rewrite El; exact H0 | rewrite El, Et; exact H0].
+    + intro Hnil. rewrite Hnil in Hfl. change (Nlen (@nil byte)) with 0 in Hfl. lia.
+    + rewrite Hfl. exact E.
+  - rewrite write_bytes_fit by (rewrite Hfl; lia).
+    apply IH; [exact Hsk | rewrite s_lim_set_tw; exact H0|].
+    rewrite s_tw_set_tw, s_lim_set_tw, Nlen_app, Hfl. lia.
+Qed.
+
 (* the chunked write loop of std::io::Write::write_all over PacketConn::write is the
    byte-at-a-time loop, whenever the buffer is not already full *)
 Lemma write_all_write_bytes bs s :
   0 < s_lim s -> Nlen (s_tw s) < s_lim s -> write_all bs s = write_bytes bs s.
-Admitted.
-
-Lemma write_bytes_app a b s : write_bytes (a ++ b) s = (write_bytes a ;;; write_bytes b) s.
-Admitted.
+Proof.
+  intros H0 H1. unfold write_all. apply write_all_f_write_bytes; [lia | exact H0 | exact H1].
+Qed.
 
 (* writes are insensitive to how the caller cuts the data *)
 Lemma write_all_app a b s :
   0 < s_lim s -> Nlen (s_tw s) < s_lim s ->
   write_all (a ++ b) s = (write_all a ;;; write_all b) s.
-Admitted.
+Proof.
+  intros H0 H1. rewrite write_all_write_bytes, write_bytes_app by assumption.
+  unfold bind. rewrite write_all_write_bytes by assumption.
+  destruct (write_bytes a s) as [[u|e|p] s1] eqn:E; [|reflexivity|reflexivity].
+  apply write_bytes_inv in E; [|assumption|assumption]. destruct E as [El Et].
+  symmetry. apply write_all_write_bytes; [rewrite El; exact H0 | exact Et].
+Qed.
+(* ---- canonical framing: unfolding ---- *)
+
+Lemma frame_pkts_f_fuel f1 : forall f2 lim q p,
+  0 < lim -> (length p < f1)%nat -> (length p < f2)%nat ->
+  frame_pkts_f f1 lim q p = frame_pkts_f f2 lim q p.
+Proof.
+  induction f1 as [|f1 IH]; intros f2 lim q p H0 H1 H2; [lia|].
+  destruct f2 as [|f2]; [lia|].
+  cbn [frame_pkts_f].
+  destruct (N.leb_spec lim (Nlen p)) as [Hle|Hlt]; [|reflexivity].
+  f_equal.
+  assert (Hs : (length (skipn (N.to_nat lim) p) < length p)%nat).
+  { rewrite skipn_length. unfold Nlen in Hle. lia. }
+  apply IH; [exact H0 | lia | lia].
+Qed.
+
+Lemma frame_pkts_unfold lim q p : 0 < lim ->
+  frame_pkts lim q p =
+  if lim <=? Nlen p
+  then (le_bytes 3 lim ++ b_of_N q :: firstn (N.to_nat lim) p)
+       :: frame_pkts lim ((q + 1) mod 256) (skipn (N.to_nat lim) p)
+  else [le_bytes 3 (Nlen p) ++ b_of_N q :: p].
+Proof.
+  intro H0. unfold frame_pkts.
+  change (frame_pkts_f (S (length p)) lim q p) with
+    (if lim <=? Nlen p
+     then (le_bytes 3 lim ++ b_of_N q :: firstn (N.to_nat lim) p)
+          :: frame_pkts_f (length p) lim ((q + 1) mod 256) (skipn (N.to_nat lim) p)
+     else [le_bytes 3 (Nlen p) ++ b_of_N q :: p]).
+  destruct (N.leb_spec lim (Nlen p)) as [Hle|Hlt]; [|reflexivity].
+  f_equal.
+  assert (Hs : (length (skipn (N.to_nat lim) p) < length p)%nat).
+  { rewrite skipn_length. unfold Nlen in Hle. lia. }
+  apply frame_pkts_f_fuel; [exact H0 | lia | lia].
+Qed.
+
+(* ---- finishing a message ---- *)
+
+(* the first [lim - |tw|] bytes of p fill a maximal packet *)
+Lemma fill_step p s :
+  s_fault s = WNone -> 0 < s_lim s -> Nlen (s_tw s) < s_lim s ->
+  s_lim s <= Nlen (s_tw s) + Nlen p ->
+  exists s1,
+    write_bytes (firstn (N.to_nat (s_lim s - Nlen (s_tw s))) p) s = (ROk tt, s1) /\
+    s_tw s1 = [] /\ s_cont s1 = true /\ s_seq s1 = (s_seq s + 1) mod 256 /\
+    emitted s s1 [le_bytes 3 (s_lim s) ++ b_of_N (s_seq s)
+                  :: firstn (N.to_nat (s_lim s)) (s_tw s ++ p)] /\
+    skipn (N.to_nat (s_lim s)) (s_tw s ++ p) = skipn (N.to_nat (s_lim s - Nlen (s_tw s))) p.
+Proof.
+  intros Hf H0 H1 H2.
+  set (k := N.to_nat (s_lim s - Nlen (s_tw s))).
+  assert (Hk1 : (1 <= k)%nat) by (unfold k, Nlen in *; lia).
+  assert (Hk2 : (k <= length p)%nat) by (unfold k, Nlen in *; lia).
+  assert (Hk3 : (N.to_nat (s_lim s) - length (s_tw s))%nat = k) by (unfold k, Nlen in *; lia).
+  assert (Hk4 : (length (s_tw s) <= N.to_nat (s_lim s))%nat) by (unfold Nlen in *; lia).
+  assert (Hfl : Nlen (firstn k p) = s_lim s - Nlen (s_tw s)).
+  { unfold Nlen. rewrite firstn_length_le by exact Hk2. unfold k, Nlen. lia. }
+  assert (Hfirst : firstn (N.to_nat (s_lim s)) (s_tw s ++ p) = s_tw s ++ firstn k p).
+  { rewrite firstn_app, Hk3, firstn_all2 by exact Hk4. reflexivity. }
+  assert (Hskip : skipn (N.to_nat (s_lim s)) (s_tw s ++ p) = skipn k p).
+  { rewrite skipn_app, Hk3, skipn_all2 by exact Hk4. reflexivity. }
+  rewrite write_bytes_fill.
+  2:{ intro Hnil. rewrite Hnil in Hfl. change (Nlen (@nil byte)) with 0 in Hfl. lia. }
+  2:{ rewrite Hfl. lia. }
+  set (s0 := set_tw (s_tw s ++ firstn k p) s).
+  assert (Hl0 : Nlen (s_tw s0) = s_lim s).
+  { unfold s0. rewrite s_tw_set_tw, Nlen_app, Hfl. lia. }
+  destruct (end_packet_emit s0) as (s1 & Hep & Ht & Hc & Hq & Hem).
+  - exact Hf.
+  - rewrite Hl0. destruct (N.eqb_spec (s_lim s) 0); [lia | reflexivity].
+  - exists s1. split; [exact Hep|]. split; [exact Ht|].
+    split. { rewrite Hc, Hl0. unfold s0. rewrite s_lim_set_tw. apply N.eqb_refl. }
+    split. { exact Hq. }
+    split; [|exact Hskip].
+    rewrite Hl0 in Hem. unfold s0 in Hem at 2 3.
+    rewrite s_tw_set_tw in Hem. change (s_seq (set_tw (s_tw s ++ firstn k p) s)) with (s_seq s) in Hem.
+    rewrite Hfirst. apply emitted_set_tw in Hem. exact Hem.
+Qed.
+
+Lemma npackets_step lim q l l' : 0 < lim -> Nlen l = lim + Nlen l' ->
+  ((q + 1) mod 256 + npackets lim l') mod 256 = (q + npackets lim l) mod 256.
+Proof.
+  intros H0 Hl. unfold npackets. rewrite Hl.
+  replace (lim + Nlen l') with (Nlen l' + 1 * lim) by lia.
+  rewrite N.div_add by lia.
+  rewrite N.add_mod_idemp_l by lia. f_equal. lia.
+Qed.
+
+Lemma finish_msg_n n : forall p s, (length p <= n)%nat ->
+  s_fault s = WNone -> 0 < s_lim s -> s_seq s < 256 -> Nlen (s_tw s) < s_lim s ->
+  exists s',
+    (write_bytes p ;;; end_packet) s = (ROk tt, s') /\
+    s_tw s' = [] /\ s_cont s' = false /\
+    (if (match s_tw s ++ p with [] => true | _ => false end) && negb (s_cont s)
+     then s' = s
+     else emitted s s' (frame_pkts (s_lim s) (s_seq s) (s_tw s ++ p)) /\
+          s_seq s' = (s_seq s + npackets (s_lim s) (s_tw s ++ p)) mod 256).
+Proof.
+  induction n as [|n IH]; intros p s Hn Hf H0 Hq H1.
+  - (* p = [] *)
+    destruct p as [|b p]; [|cbn [length] in Hn; lia].
+    rewrite app_nil_r. unfold bind. cbn [write_bytes]. unfold ret.
+    destruct ((Nlen (s_tw s) =? 0) && negb (s_cont s)) eqn:Ec.
+    + exists s. apply Bool.andb_true_iff in Ec. destruct Ec as [E1 E2].
+      apply N.eqb_eq in E1. apply Nlen_0 in E1.
+      apply Bool.negb_true_iff in E2.
+      split. { unfold end_packet. rewrite E1, E2. reflexivity. }
+      split; [exact E1|]. split; [exact E2|].
+      rewrite E1, E2. reflexivity.
+    + destruct (end_packet_emit s Hf Ec) as (s' & Hep & Ht & Hc & Hs & Hem).
+      exists s'. split; [exact Hep|]. split; [exact Ht|].
+      split. { rewrite Hc. destruct (N.eqb_spec (Nlen (s_tw s)) (s_lim s)); [lia | reflexivity]. }
+      assert (Hif : (match s_tw s with [] => true | _ :: _ => false end) && negb (s_cont s) = false).
+      { destruct (s_tw s); [exact Ec | reflexivity]. }
+      rewrite Hif.
+      rewrite frame_pkts_unfold by exact H0.
+      destruct (N.leb_spec (s_lim s) (Nlen (s_tw s))); [lia|].
+      split; [exact Hem|].
+      rewrite Hs. unfold npackets. rewrite N.div_small by exact H1. reflexivity.
+  - destruct (N.lt_ge_cases (Nlen (s_tw s) + Nlen p) (s_lim s)) as [Hlt|Hge].
+    + (* everything fits in the current packet *)
+      unfold bind. rewrite write_bytes_fit by exact Hlt.
+      set (s0 := set_tw (s_tw s ++ p) s).
+      destruct ((Nlen (s_tw s0) =? 0) && negb (s_cont s0)) eqn:Ec.
+      * apply Bool.andb_true_iff in Ec. destruct Ec as [E1 E2].
+        apply N.eqb_eq in E1. apply Nlen_0 in E1.
+        apply Bool.negb_true_iff in E2.
+        unfold s0 in E1, E2. rewrite s_tw_set_tw in E1.
+        change (s_cont (set_tw (s_tw s ++ p) s)) with (s_cont s) in E2.
+        assert (Hs0 : s0 = s).
+        { unfold s0. rewrite E1. apply app_eq_nil in E1. destruct E1 as [E1 _].
+          rewrite <- E1 at 1. apply set_tw_same. }
+        rewrite Hs0. exists s.
+        apply app_eq_nil in E1 as E1'. destruct E1' as [Etw _].
+        split. { unfold end_packet. rewrite Etw, E2. reflexivity. }
+        split; [exact Etw|]. split; [exact E2|].
+        rewrite E1, E2. reflexivity.
+      * destruct (end_packet_emit s0 Hf Ec) as (s' & Hep & Ht & Hc & Hs & Hem).
+        assert (Hl0 : Nlen (s_tw s0) = Nlen (s_tw s ++ p)) by reflexivity.
+        exists s'. split; [exact Hep|]. split; [exact Ht|].
+        split.
+        { rewrite Hc, Hl0, Nlen_app. unfold s0. rewrite s_lim_set_tw.
+          destruct (N.eqb_spec (Nlen (s_tw s) + Nlen p) (s_lim s)); [lia | reflexivity]. }
+        assert (Hif : (match s_tw s ++ p with [] => true | _ :: _ => false end)
+                      && negb (s_cont s) = false).
+        { unfold s0 in Ec. rewrite s_tw_set_tw in Ec.
+          change (s_cont (set_tw (s_tw s ++ p) s)) with (s_cont s) in Ec.
+          destruct (s_tw s ++ p); [exact Ec | reflexivity]. }
+        rewrite Hif.
+        rewrite frame_pkts_unfold by exact H0.
+        destruct (N.leb_spec (s_lim s) (Nlen (s_tw s ++ p))) as [Hle|_];
+          [rewrite Nlen_app in Hle; lia|].
+        split.
+        { apply emitted_set_tw in Hem. exact Hem. }
+        rewrite Hs. change (s_seq s0) with (s_seq s).
+        unfold npackets. rewrite N.div_small by (rewrite Nlen_app; exact Hlt). reflexivity.
+    + (* the first bytes fill a maximal packet *)
+      destruct (fill_step p s Hf H0 H1 Hge) as (s1 & Hw & Ht1 & Hc1 & Hq1 & Hem1 & Hskip).
+      set (k := N.to_nat (s_lim s - Nlen (s_tw s))) in *.
+      assert (Hk1 : (1 <= k)%nat) by (unfold k, Nlen in *; lia).
+      assert (Hlim1 : s_lim s1 = s_lim s) by (destruct Hem1 as (_ & _ & E & _); exact E).
+      assert (Hf1 : s_fault s1 = WNone).
+      { destruct Hem1 as (_ & E & _). rewrite E. exact Hf. }
+      destruct (IH (skipn k p) s1) as (s' & Hrun & Ht & Hc & Hrest).
+      * rewrite skipn_length. lia.
+      * exact Hf1.
+      * rewrite Hlim1. exact H0.
+      * rewrite Hq1. apply N.mod_lt. lia.
+      * rewrite Ht1, Hlim1. exact H0.
+      * rewrite Hc1, Bool.andb_false_r, Ht1, Hlim1, Hq1 in Hrest. cbn [app] in Hrest.
+        destruct Hrest as [Hem2 Hseq2].
+        exists s'. split.
+        { transitivity ((write_bytes (firstn k p ++ skipn k p) ;;; end_packet) s);
+            [rewrite firstn_skipn; reflexivity|].
+          unfold bind. rewrite write_bytes_app. unfold bind. rewrite Hw. exact Hrun. }
+        split; [exact Ht|]. split; [exact Hc|].
+        assert (Hlen : Nlen (s_tw s ++ p) = s_lim s + Nlen (skipn k p)).
+        { rewrite Nlen_app. unfold Nlen in *. rewrite skipn_length. lia. }
+        assert (Hif : (match s_tw s ++ p with [] => true | _ :: _ => false end) = false).
+        { destruct (s_tw s ++ p); [|reflexivity].
+          change (Nlen (@nil byte)) with 0 in Hlen. lia. }
+        rewrite Hif. cbn [andb].
+        rewrite frame_pkts_unfold by exact H0.
+        destruct (N.leb_spec (s_lim s) (Nlen (s_tw s ++ p))) as [_|Hlt]; [|lia].
+        rewrite Hskip. split.
+        { apply (emitted_trans s s1 s' [_] _ Hem1 Hem2). }
+        rewrite Hseq2. apply npackets_step; [exact H0 | exact Hlen].
+Qed.
 
 (* finishing a message: from any mid-message state, writing the rest and ending the packet emits
    exactly the canonical framing of the whole pending payload *)
@@ -37,7 +413,7 @@ Lemma finish_msg p s :
      then s' = s
      else emitted s s' (frame_pkts (s_lim s) (s_seq s) (s_tw s ++ p)) /\
           s_seq s' = (s_seq s + npackets (s_lim s) (s_tw s ++ p)) mod 256).
-Admitted.
+Proof. apply (finish_msg_n (length p)). apply Nat.le_refl. Qed.
 
 
 (* one whole non-empty message from a clean state *)
@@ -47,7 +423,16 @@ Lemma send_frame p s :
     send p s = (ROk tt, s') /\ s_tw s' = [] /\ s_cont s' = false /\
     emitted s s' (frame_pkts (s_lim s) (s_seq s) p) /\
     s_seq s' = (s_seq s + npackets (s_lim s) p) mod 256.
-Admitted.
+Proof.
+  intros Hf H0 Hq Ht Hc Hne.
+  assert (H1 : Nlen (s_tw s) < s_lim s) by (rewrite Ht; exact H0).
+  destruct (finish_msg p s Hf H0 Hq H1) as (s' & Hrun & Ht' & Hc' & Hrest).
+  rewrite Ht in Hrest. cbn [app] in Hrest.
+  destruct p as [|b p]; [congruence|]. cbn [andb] in Hrest.
+  exists s'. split.
+  { unfold send, bind. rewrite write_all_write_bytes by assumption. exact Hrun. }
+  split; [exact Ht'|]. split; [exact Hc'|]. exact Hrest.
+Qed.
 
 Lemma send_all_frame_all msgs s :
   s_fault s = WNone -> 0 < s_lim s -> s_seq s < 256 -> s_tw s = [] -> s_cont s = false ->
@@ -56,12 +441,98 @@ Lemma send_all_frame_all msgs s :
     send_all msgs s = (ROk tt, s') /\ s_tw s' = [] /\ s_cont s' = false /\
     emitted s s' (frame_all_pkts (s_lim s) (s_seq s) msgs) /\
     s_seq s' = seq_after (s_lim s) (s_seq s) msgs.
-Admitted.
+Proof.
+  revert s. induction msgs as [|m r IH]; intros s Hf H0 Hq Ht Hc Hall.
+  - exists s. cbn [send_all frame_all_pkts seq_after]. unfold ret.
+    split; [reflexivity|]. split; [exact Ht|]. split; [exact Hc|].
+    split; [apply emitted_refl | reflexivity].
+  - inversion Hall as [|m' r' Hm Hr]; subst m' r'.
+    destruct (send_frame m s Hf H0 Hq Ht Hc Hm) as (s1 & Hrun1 & Ht1 & Hc1 & Hem1 & Hq1).
+    assert (Hlim1 : s_lim s1 = s_lim s) by (destruct Hem1 as (_ & _ & E & _); exact E).
+    assert (Hf1 : s_fault s1 = WNone).
+    { destruct Hem1 as (_ & E & _). rewrite E. exact Hf. }
+    destruct (IH s1) as (s' & Hrun & Ht' & Hc' & Hem & Hq').
+    + exact Hf1.
+    + rewrite Hlim1. exact H0.
+    + rewrite Hq1. apply N.mod_lt. lia.
+    + exact Ht1.
+    + exact Hc1.
+    + exact Hr.
+    + rewrite Hlim1, Hq1 in Hem, Hq'.
+      exists s'. cbn [send_all frame_all_pkts seq_after].
+      split. { unfold bind. rewrite Hrun1. exact Hrun. }
+      split; [exact Ht'|]. split; [exact Hc'|].
+      split; [exact (emitted_trans _ _ _ _ _ Hem1 Hem) | exact Hq'].
+Qed.
 
 (* ---- the canonical framing is what a client reassembles ---- *)
 
+Lemma frame_pkts_count_n n : forall lim q p, (length p <= n)%nat -> 0 < lim ->
+  Nlen (frame_pkts lim q p) = npackets lim p.
+Proof.
+  induction n as [|n IH]; intros lim q p Hn H0; rewrite frame_pkts_unfold by exact H0;
+    unfold npackets;
+    (destruct (N.leb_spec lim (Nlen p)) as [Hle|Hlt];
+      [|rewrite N.div_small by exact Hlt; reflexivity]).
+  - unfold Nlen in Hle. lia.
+  - rewrite Nlen_cons, IH; [|rewrite skipn_length; unfold Nlen in Hle; lia | exact H0].
+    unfold npackets.
+    assert (Hl : Nlen p = Nlen (skipn (N.to_nat lim) p) + 1 * lim).
+    { unfold Nlen in *. rewrite skipn_length. lia. }
+    rewrite Hl at 1. rewrite N.div_add by lia. reflexivity.
+Qed.
+
 Lemma frame_pkts_count lim q p : 0 < lim -> Nlen (frame_pkts lim q p) = npackets lim p.
-Admitted.
+Proof. apply (frame_pkts_count_n (length p)). apply Nat.le_refl. Qed.
+Lemma b_of_N_mod x : b_of_N (x mod 256) = b_of_N x.
+Proof. unfold b_of_N. rewrite N.mod_mod by lia. reflexivity. Qed.
+
+Lemma shape_shift lim q bodies : forall k,
+  map (fun '(i, b) => le_bytes 3 lim ++ b_of_N (((q + 1) mod 256 + N.of_nat i) mod 256) :: b)
+      (combine (seq k (length bodies)) bodies) =
+  map (fun '(i, b) => le_bytes 3 lim ++ b_of_N ((q + N.of_nat i) mod 256) :: b)
+      (combine (seq (S k) (length bodies)) bodies).
+Proof.
+  induction bodies as [|x bodies IH]; intro k.
+  - reflexivity.
+  - cbn [length seq combine map]. f_equal.
+    + replace (((q + 1) mod 256 + N.of_nat k) mod 256) with ((q + N.of_nat (S k)) mod 256);
+        [reflexivity|].
+      rewrite N.add_mod_idemp_l by lia. f_equal. lia.
+    + apply IH.
+Qed.
+
+Lemma frame_pkts_shape_n n : forall lim q p, (length p <= n)%nat -> 0 < lim ->
+  exists bodies last,
+    p = concat bodies ++ last /\ Forall (fun b => Nlen b = lim) bodies /\ Nlen last < lim /\
+    frame_pkts lim q p =
+      map (fun '(i, b) => le_bytes 3 lim ++ b_of_N ((q + N.of_nat i) mod 256) :: b)
+          (combine (seq 0 (length bodies)) bodies)
+      ++ [le_bytes 3 (Nlen last) ++ b_of_N ((q + Nlen bodies) mod 256) :: last].
+Proof.
+  induction n as [|n IH]; intros lim q p Hn H0; rewrite frame_pkts_unfold by exact H0;
+    destruct (N.leb_spec lim (Nlen p)) as [Hle|Hlt].
+  - unfold Nlen in Hle. lia.
+  - exists [], p. cbn [concat app length seq combine map].
+    split; [reflexivity|]. split; [constructor|]. split; [exact Hlt|].
+    change (Nlen (@nil bytes)) with 0. rewrite N.add_0_r, b_of_N_mod. reflexivity.
+  - destruct (IH lim ((q + 1) mod 256) (skipn (N.to_nat lim) p)) as (bodies & last & Hp & Hall & Hlast & Hfr).
+    { rewrite skipn_length. unfold Nlen in Hle. lia. }
+    { exact H0. }
+    exists (firstn (N.to_nat lim) p :: bodies), last.
+    split. { cbn [concat]. rewrite <- app_assoc, <- Hp. symmetry. apply firstn_skipn. }
+    split. { constructor; [|exact Hall]. unfold Nlen in *. rewrite firstn_length_le by lia. lia. }
+    split; [exact Hlast|].
+    rewrite Hfr. cbn [length seq combine map app]. f_equal.
+    + change (N.of_nat 0) with 0. rewrite N.add_0_r, b_of_N_mod. reflexivity.
+    + rewrite shape_shift.
+      replace (((q + 1) mod 256 + Nlen bodies) mod 256)
+        with ((q + Nlen (firstn (N.to_nat lim) p :: bodies)) mod 256); [reflexivity|].
+      rewrite N.add_mod_idemp_l by lia. rewrite Nlen_cons. f_equal. lia.
+  - exists [], p. cbn [concat app length seq combine map].
+    split; [reflexivity|]. split; [constructor|]. split; [exact Hlt|].
+    change (Nlen (@nil bytes)) with 0. rewrite N.add_0_r, b_of_N_mod. reflexivity.
+Qed.
 
 (* every packet of the framing has a header length equal to its payload length, non-final
    packets are maximal, the final one is shorter *)
@@ -72,15 +543,153 @@ Lemma frame_pkts_shape lim q p : 0 < lim -> lim < 2 ^ 24 -> q < 256 ->
       map (fun '(i, b) => le_bytes 3 lim ++ b_of_N ((q + N.of_nat i) mod 256) :: b)
           (combine (seq 0 (length bodies)) bodies)
       ++ [le_bytes 3 (Nlen last) ++ b_of_N ((q + Nlen bodies) mod 256) :: last].
-Admitted.
+Proof. intros H0 _ _. apply (frame_pkts_shape_n (length p)); [apply Nat.le_refl | exact H0]. Qed.
+
+(* ---- deframe ---- *)
+
+Definition cur_ok (cur : option (N * N * bytes)) (q : N) : Prop :=
+  match cur with None => True | Some (_, prev, _) => q = (prev + 1) mod 256 end.
+Definition cur_first (cur : option (N * N * bytes)) (q : N) : N :=
+  match cur with None => q | Some (f0, _, _) => f0 end.
+Definition cur_pay (cur : option (N * N * bytes)) : bytes :=
+  match cur with None => [] | Some (_, _, p) => p end.
+
+Lemma deframe_f_S f lim cur a b c q r :
+  deframe_f (S f) lim cur (a :: b :: c :: q :: r) =
+  let len := le_val [a; b; c] in
+  match take_cnt r len with
+  | None => None
+  | Some (body, rest) =>
+    let ok := match cur with
+              | None => true
+              | Some (_, prev, _) => N_of_b q =? (prev + 1) mod 256 end in
+    if negb ok then None else
+    let '(q0, p0) := match cur with None => (N_of_b q, []) | Some (f0, _, p) => (f0, p) end in
+    if len =? lim then deframe_f f lim (Some (q0, N_of_b q, p0 ++ body)) rest
+    else match deframe_f f lim None rest with
+         | Some l => Some ((q0, N_of_b q, p0 ++ body) :: l)
+         | None => None
+         end
+  end.
+Proof. reflexivity. Qed.
+
+Lemma pow_3_24 : 256 ^ N.of_nat 3 = 2 ^ 24.
+Proof. reflexivity. Qed.
+
+Lemma deframe_f_step f lim cur len q body rest :
+  len = Nlen body -> len < 2 ^ 24 -> q < 256 -> cur_ok cur q ->
+  deframe_f (S f) lim cur ((le_bytes 3 len ++ b_of_N q :: body) ++ rest) =
+  if len =? lim then deframe_f f lim (Some (cur_first cur q, q, cur_pay cur ++ body)) rest
+  else match deframe_f f lim None rest with
+       | Some l => Some ((cur_first cur q, q, cur_pay cur ++ body) :: l)
+       | None => None
+       end.
+Proof.
+  intros Hlen Hlt Hq Hok.
+  assert (Hv : le_val (le_bytes 3 len) = len) by (apply le_val_le_bytes; rewrite pow_3_24; exact Hlt).
+  assert (Hqq : N_of_b (b_of_N q) = q) by (rewrite N_of_b_of_N; apply N.mod_small; exact Hq).
+  cbn [le_bytes app] in *. rewrite deframe_f_S. cbv zeta.
+  rewrite Hv, Hqq. rewrite Hlen at 1. rewrite take_cnt_app.
+  destruct cur as [[[f0 prev] p0]|]; cbn [cur_ok cur_first cur_pay] in *.
+  - rewrite <- Hok, N.eqb_refl. cbn [negb]. reflexivity.
+  - cbn [negb]. reflexivity.
+Qed.
+
+Lemma deframe_f_enough lim f' : forall f cur i l,
+  deframe_f f lim cur i = Some l -> (length i < f')%nat -> deframe_f f' lim cur i = Some l.
+Proof.
+  induction f' as [|f' IH]; intros f cur i l H Hl; [lia|].
+  destruct f as [|f]; [discriminate H|].
+  destruct i as [|a [|b [|c [|q r]]]]; try exact H.
+  rewrite deframe_f_S in *. cbv zeta in *.
+  destruct (take_cnt r (le_val [a; b; c])) as [[body rest]|] eqn:Et; [|discriminate H].
+  assert (Hr : (length rest < f')%nat).
+  { rewrite take_cnt_spec in Et. destruct (le_val [a; b; c] <=? Nlen r); [|discriminate Et].
+    inversion Et; subst rest. rewrite skipn_length. cbn [length] in Hl. lia. }
+  destruct (negb _); [discriminate H|].
+  destruct (match cur with None => (N_of_b q, []) | Some (f0, _, p) => (f0, p) end) as [q0 p0].
+  destruct (le_val [a; b; c] =? lim).
+  - eapply IH; [exact H | exact Hr].
+  - destruct (deframe_f f lim None rest) as [l0|] eqn:E; [|discriminate H].
+    rewrite (IH _ _ _ _ E Hr). exact H.
+Qed.
+
+Lemma last_seq_step lim q p p' : 0 < lim -> Nlen p = lim + Nlen p' ->
+  last_seq lim ((q + 1) mod 256) p' = last_seq lim q p.
+Proof.
+  intros H0 Hl. unfold last_seq. rewrite Hl.
+  replace (lim + Nlen p') with (Nlen p' + 1 * lim) by lia.
+  rewrite N.div_add by lia.
+  rewrite N.add_mod_idemp_l by lia. f_equal. lia.
+Qed.
+
+Lemma deframe_frame_gen lim f0 rest rest_msgs :
+  0 < lim -> lim < 2 ^ 24 -> deframe_f f0 lim None rest = Some rest_msgs ->
+  forall n p q cur, (length p <= n)%nat -> q < 256 -> cur_ok cur q ->
+  exists f, deframe_f f lim cur (frame lim q p ++ rest) =
+            Some ((cur_first cur q, last_seq lim q p, cur_pay cur ++ p) :: rest_msgs).
+Proof.
+  intros H0 Hlim Hrest.
+  induction n as [|n IH]; intros p q cur Hn Hq Hok; unfold frame;
+    rewrite frame_pkts_unfold by exact H0;
+    destruct (N.leb_spec lim (Nlen p)) as [Hle|Hlt].
+  - unfold Nlen in Hle. lia.
+  - exists (S f0). cbn [concat]. rewrite app_nil_r.
+    rewrite deframe_f_step; [|reflexivity | lia | exact Hq | exact Hok].
+    destruct (N.eqb_spec (Nlen p) lim); [lia|].
+    rewrite Hrest. unfold last_seq. rewrite N.div_small by exact Hlt.
+    rewrite N.add_0_r, N.mod_small by exact Hq. reflexivity.
+  - set (body := firstn (N.to_nat lim) p). set (p' := skipn (N.to_nat lim) p).
+    assert (Hb : lim = Nlen body).
+    { unfold body, Nlen in *. rewrite firstn_length_le by lia. lia. }
+    assert (Hp : p = body ++ p') by (symmetry; apply firstn_skipn).
+    assert (Hl : Nlen p = lim + Nlen p') by (rewrite Hp at 1; rewrite Nlen_app; lia).
+    destruct (IH p' ((q + 1) mod 256) (Some (cur_first cur q, q, cur_pay cur ++ body)))
+      as (f & Hf).
+    { unfold p'. rewrite skipn_length. unfold Nlen in Hle. lia. }
+    { apply N.mod_lt. lia. }
+    { reflexivity. }
+    exists (S f). cbn [concat]. rewrite <- app_assoc.
+    rewrite deframe_f_step; [|exact Hb | exact Hlim | exact Hq | exact Hok].
+    rewrite N.eqb_refl. unfold frame in Hf. rewrite Hf.
+    cbn [cur_first cur_pay]. rewrite (last_seq_step lim q p p' H0 Hl), <- app_assoc, <- Hp.
+    reflexivity.
+  - exists (S f0). cbn [concat]. rewrite app_nil_r.
+    rewrite deframe_f_step; [|reflexivity | lia | exact Hq | exact Hok].
+    destruct (N.eqb_spec (Nlen p) lim); [lia|].
+    rewrite Hrest. unfold last_seq. rewrite N.div_small by exact Hlt.
+    rewrite N.add_0_r, N.mod_small by exact Hq. reflexivity.
+Qed.
 
 Lemma deframe_frame lim q p rest_msgs rest :
   0 < lim -> lim < 2 ^ 24 -> q < 256 ->
   deframe lim rest = Some rest_msgs ->
   deframe lim (frame lim q p ++ rest) = Some ((q, last_seq lim q p, p) :: rest_msgs).
-Admitted.
+Proof.
+  intros H0 Hlim Hq Hrest. unfold deframe in *.
+  destruct (deframe_frame_gen lim _ rest rest_msgs H0 Hlim Hrest (length p) p q None)
+    as (f & Hf); [apply Nat.le_refl | exact Hq | exact I |].
+  cbn [cur_first cur_pay app] in Hf.
+  eapply deframe_f_enough; [exact Hf | lia].
+Qed.
 
 Lemma deframe_frame_all lim q msgs :
   0 < lim -> lim < 2 ^ 24 -> q < 256 ->
   exists l, deframe lim (frame_all lim q msgs) = Some l /\ map (fun x => snd x) l = msgs.
-Admitted.
+Proof.
+  intros H0 Hlim. revert q. induction msgs as [|m r IH]; intros q Hq.
+  - exists []. split; reflexivity.
+  - destruct (IH ((q + npackets lim m) mod 256)) as (l & Hl & Hm).
+    { apply N.mod_lt. lia. }
+    exists ((q, last_seq lim q m, m) :: l). split.
+    + unfold frame_all. cbn [frame_all_pkts]. rewrite concat_app.
+      apply (deframe_frame lim q m l _ H0 Hlim Hq Hl).
+    + cbn [map snd]. rewrite Hm. reflexivity.
+Qed.
+
+Print Assumptions finish_msg.
+Print Assumptions send_all_frame_all.
+Print Assumptions write_all_app.
+Print Assumptions frame_pkts_shape.
+Print Assumptions deframe_frame.
+Print Assumptions deframe_frame_all.
